@@ -422,6 +422,11 @@ _EXT_RAISES: Dict[str, List[ExcTok]] = {
     "builtins.next": [("builtins.StopIteration", True)],
     "inspect.signature": [("builtins.ValueError", True), ("builtins.TypeError", True)],
     "shlex.split": [("builtins.ValueError", True)],  # unbalanced quotes, trailing backslash
+    "textwrap.fill": [("builtins.ValueError", True)],  # width <= 0, placeholder wider than the width
+    "textwrap.wrap": [("builtins.ValueError", True)],
+    "textwrap.shorten": [("builtins.ValueError", True)],
+    "textwrap.TextWrapper.fill": [("builtins.ValueError", True)],
+    "textwrap.TextWrapper.wrap": [("builtins.ValueError", True)],
     "Path.unlink": [("builtins.OSError", False)],
     # what a ControlParser raises on purpose (exact tokens: routed to the handler that names them) + anything else
     "argparse.ArgumentParser.parse_args": [("argparse.ArgumentError", True), ("exceptions.HelpRequested", True), ("exceptions.ParserError", True), (EXCEPTION, False)],
